@@ -33,7 +33,7 @@ TRUSTED = ["lean/Tahoe/Identity/Model.lean is a hand transcription of the six cl
            "objects are abstracted to (class, id(), cap string(s)); CPython hash functions are uninterpreted"]
 ASSUMPTIONS = [
     "the capability strings of an UnknownNode are the pair (get_write_uri(), get_readonly_uri()); of every other node get_uri(); of a cap object to_string()",
-    "an unhashable object (UnknownNode defines __eq__ and no __hash__, so hash() raises TypeError) does not break 'equal objects hash equally' — counted as 'unhashable:<class>', not reported",
+    "'equal objects hash equally' requires hash() to evaluate for two equal nodes / two equal caps (every class is hashable: UnknownNode.__hash__ = hash((class, ro_uri, rw_uri)) since 8fd04af); an unhashable pair is reported as unhashable-equal-objects:<classes>",
     "uri.from_string is a function of (string, deep_immutable): within one parse context an UnknownURI never holds a string that is the to_string() of a parsed cap (hypothesis ParseFunctional); pairs mixing a cap parsed normally with the UnknownURI error marker of the same string parsed under deep_immutable=True are skipped and counted",
     "distinct live objects have distinct id() and object.__hash__ (hash collisions between unequal symbolic hash values are possible in principle; none is expected in 64 bits)",
     "CiphertextFileNode (verify-cap node without get_uri/get_cap) and ProhibitedNode are outside the model",
@@ -192,6 +192,10 @@ def eval_pair(ctx, env, case, a, b, da, db):
     if eq:
         if ha is not None and hb is not None and ha != hb:
             ctx.violation("equal objects hash differently", case, "hash-mismatch:%s" % pair)
+        if applies and (ha is None or hb is None):
+            # "equal objects hash equally": hash(a) == hash(b) must evaluate for two equal nodes / two equal caps
+            ctx.violation("two equal %ss cannot be hashed (hash() raises TypeError): they cannot be set members or dict keys"
+                          % da[2], case, "unhashable-equal-objects:%s" % pair)
     for d, h in ((da, ha), (db, hb)):
         if h is None:
             ctx.count("unhashable:" + d[1])
@@ -289,6 +293,16 @@ CORPUS = [
      {"how": "from_string", "s": b"imm.URI:FUTURE:abc".hex(), "imm": False}),
     ({"how": "unknown_node_cap", "s": None, "s2": b"ro.URI:FUTURE-RO:x".hex(), "imm": False},
      {"how": "unknown_node_cap", "s": None, "s2": b"imm.URI:FUTURE-RO:x".hex(), "imm": False}),
+    # two equal nodes of every node class must hash (and hash equally)   [seeded change C43-e: LiteralFileNode]
+    ({"how": "node", "s": b"URI:LIT:krugkidfnzsc4".hex()}, {"how": "node", "s": b"URI:LIT:krugkidfnzsc4".hex()}),
+    ({"how": "nodemaker", "s": b"URI:LIT:krugkidfnzsc4".hex(), "s2": None, "imm": False},
+     {"how": "node", "s": b"URI:LIT:krugkidfnzsc4".hex()}),
+    ({"how": "node", "s": _SSK.hex()}, {"how": "node", "s": _SSK.hex()}),
+    ({"how": "node", "s": _MDMF.hex()}, {"how": "node", "s": _MDMF.hex()}),
+    ({"how": "node", "s": _DIR2.hex()}, {"how": "node", "s": _DIR2.hex()}),
+    ({"how": "node", "s": b"URI:DIR2-LIT:krugkidfnzsc4".hex()}, {"how": "node", "s": b"URI:DIR2-LIT:krugkidfnzsc4".hex()}),
+    ({"how": "unknown_node", "s": None, "s2": b"ro.URI:FUTURE-RO:x".hex(), "imm": False},
+     {"how": "unknown_node", "s": None, "s2": b"ro.URI:FUTURE-RO:x".hex(), "imm": False}),
     # near misses: same key and UEB hash, another k / N / size (nodes and bare caps)   [seeded change C43-a]
     ({"how": "node", "s": (_CHK + b":3:10:1000").hex()}, {"how": "node", "s": (_CHK + b":4:10:1000").hex()}),
     ({"how": "node", "s": (_CHK + b":3:10:1000").hex()}, {"how": "node", "s": (_CHK + b":3:11:1000").hex()}),
@@ -476,6 +490,9 @@ def eval_usage(ctx, sa, sb, da, db, same, usage, cases, impl, lines):
         elif wrong:
             ctx.violation("%s capability strings but a == b is %s" % ("same" if same else "different", not same), case,
                           "eq-mismatch:%s:%s" % (pair, "same-cap-unequal" if same else "different-cap-equal"))
+        if same and obs[-1][1][0] and (ha is None or hb is None):
+            ctx.violation("two equal %ss cannot be hashed (hash() raises TypeError): they cannot be set members or dict keys"
+                          % da[2], case, "unhashable-equal-objects:%s" % pair)
         if ha is not None and hb is not None:
             if same and ha != hb:
                 ctx.violation("equal objects hash differently", case, "hash-mismatch:%s" % pair)
